@@ -13,5 +13,24 @@ CHECKS = {
   "note": NOTE_COMMON,
  },
 }
+
+def _e(technique, text, engine="explorer-E"):
+    return {"engine": engine, "technique": technique, "text": text, "note": NOTE_COMMON}
+
+CHECKS.update({
+ "C01": _e("bounded-exhaustive exploration of the real SupervisedOPF.fit over all weak edge orderings / weight assignments x labelings, minimax-path reference",
+           "Every (graph, labeling) of the stated families (complete for n<=4 as order types) is fitted by the real code and the whole forest (costs, links, labels, order) is compared with a Floyd-Warshall minimax reference; exhaustive within bounds."),
+ "C02": _e("bounded-exhaustive exploration; oracle enumerates all spanning trees and accepts any MST's boundary set",
+           "Prototype sets produced by the real code on every graph x labeling in the bounds (supervised and semi-supervised) must be a member of the all-MST boundary family; covers every tie pattern for n<=4."),
+ "C03": _e("bounded-exhaustive exploration of (fitted forest, query) pairs against the exhaustive argmin",
+           "Every fitted forest on n<=4(5) samples x every query distance vector over the alphabet (train on each n-subset of each (n+1)-graph, predict the rest) is predicted by the real code and checked for membership in the exhaustive minimiser label set."),
+ "C04": _e("bounded-exhaustive exploration: all strict edge orders, all arrangements of a generic point set under 40 metrics, all lattice data for KNN",
+           "All tie-free order types for n<=4 (thorough: all 10! for n=5) and every dissimilarity metric are trained and re-predicted by the real code; KNN-supervised on all lattice sequences with ties."),
+ "C11": _e("bounded-exhaustive metamorphic exploration: all n! training orders x five monotone metric transforms",
+           "Every permutation of every tie-free training set in the bounds and every Euclidean-family identifier is run on the real code and compared per sample with the base run."),
+ "C15": _e("bounded-exhaustive exploration of SemiSupervisedOPF.fit over all graphs on labeled+unlabeled nodes, minimax reference + differential vs SupervisedOPF",
+           "Every graph on n_l+n_u <= 6 nodes over the weight alphabet x every labeling: full-graph minimax reference, labeled-MST prototype family, and state identity with SupervisedOPF when n_u = 0."),
+})
+
 NOT_APPLICABLE = {p: "check not built yet (build in progress; see DESIGN.md section 7)" for p in
                   ["C%02d" % i for i in range(1, 21)]}
